@@ -7,6 +7,9 @@ import subprocess
 import sys
 import os
 
+import fcntl
+_lock = open('/tmp/repo.lock', 'w')
+fcntl.flock(_lock, fcntl.LOCK_EX)      # nobody else may be patching /repo meanwhile
 name, prop, expect, path = sys.argv[1:5]
 old, new = sys.stdin.read().split('\n=====\n')
 new = new.rstrip('\n')
